@@ -40,6 +40,22 @@ CLAIMED = {
          "Exploration over the random stream: ~260 configurations x 2e6 (quick) / 4e7 (thorough) seeded trials, ~1500 statistics each compared with its exactly known law; false-alarm probability < 1e-15 per run; detects rate errors >= ~0.003 (quick) at p = 0.5.",
          "Trusted: rand 0.9 StdRng / Bernoulli; independence of the trials counted together (only disjoint gene pairs are pooled). Not detectable: < vs <=, f32 rounding of a rate, deviations below the stated resolution.",
          "DESIGN.md §1 Statistical method, §2 C12"),
+ "C06": (PBT + ": generated populations x generated selector composition trees (real WeightedPair / DynWeighted / reference / erased nodes) with a generated random stream; pointer-identity membership oracle and a small model of which documented errors a configuration justifies",
+         "Exploration: hundreds of thousands (quick) to millions (thorough) of (population, selector tree, random stream) cases with 1-3 draws each.",
+         "Trusted: the harness's delegating enums (combinator nodes are the real types) and its model of justified errors; Ok(member) is also accepted when lexicase is configured with more cases than results.",
+         "DESIGN.md §2 C06"),
+ "C07": (PBT + " for per-draw invariants (sample recovered from logged comparisons) plus seeded statistical tests of the k-subset uniformity law and the enumerated winner law (Chernoff/KL, alpha 1e-12, confirmation stage)",
+         "Exploration: hundreds of thousands of generated (population, k, stream) cases; for every n <= 7, k <= n the full subset and winner laws against 1e6 (quick) / 1e7 (thorough) seeded draws.",
+         "Trusted: rand StdRng; the sampled subset is observed through the individuals' Ord::cmp, so an implementation comparing more than k individuals is judged by the winner law only.",
+         "DESIGN.md §2 C07"),
+ "C08": ("seeded statistical property testing against the exact lexicase law obtained by enumerating all case orders with an independent definition of 'better'; per-draw exact support check (winner has positive probability, never Pareto-dominated)",
+         "Exploration: 400 (quick) / 8000 (thorough) generated result matrices in both polarities x 4e5 / 2e6 seeded draws each.",
+         "Trusted: the harness's enumerator; only configured case count = number of results is judged.",
+         "DESIGN.md §2 C08"),
+ "C13": (PBT + " for per-selection invariants through marker members (exactly one member used, never weight 0, construction rejected iff a partial sum overflows) plus seeded statistical tests of member frequencies = w_i / sum(w) over all binary tree shapes up to 5 leaves, real chains and dynamic lists",
+         "Exploration: hundreds of thousands of generated weighted shapes and ~190 law configurations x 4e5 (quick) / 5e6 (thorough) draws.",
+         "Trusted: rand Bernoulli / choose_weighted; the payload of WeightSumOverflow is not compared.",
+         "DESIGN.md §2 C13"),
 }
 NOT_YET = "check not built yet in this revision (work in progress; see DESIGN.md §2 for the planned generated-input check)"
 
